@@ -55,6 +55,20 @@ class _NpShim:
 _SYMBOLIC = [False]
 
 
+def symbolic(fn):
+    """run fn with the numpy shim in symbolic mode (object containers); real-number mode is restored afterwards, so that real
+    sweepers built later in the same worker process are not affected"""
+
+    def wrapped(*a, **k):
+        _SYMBOLIC[0] = True
+        try:
+            return fn(*a, **k)
+        finally:
+            _SYMBOLIC[0] = False
+
+    return wrapped
+
+
 def _orig():
     import pySDC.core.sweeper as mod
 
@@ -110,7 +124,6 @@ def install_ghost_generators(mk, M, kdep, triangular=False):
     mod.QDELTA_GENERATORS = {**_ORIG[0], 'GA': GA, 'GA-alias': GA, 'GA2': GA2, 'GB': GB}
     mod.QDELTA_GENERATORS_ALIASES = {**_ORIG[1], GA: ['GA', 'GA-alias'], GA2: ['GA2'], GB: ['GB']}
     mod.np = _NpShim()
-    _SYMBOLIC[0] = True
     mod._ghost_tables = tables
     return mod, log, GA, GB
 
@@ -153,7 +166,7 @@ class _QdBase(Contract):
         name = 'GA-alias' if inst['cached'] == 'alias' else 'GA'
         f = sw.get_Qdelta_explicit if self.explicit else sw.get_Qdelta_implicit
         st = State(L=L, sw=sw, M=M, inst=inst, log=log, cached=cached, other=other, k=k, GA=GA, GB=GB, attr=attr, other_attr=other_attr,
-                   Q_before=sw.coll.Qmat, Qcopy=sw.coll.Qmat.copy(), call=lambda: f(name, k=k))
+                   Q_before=sw.coll.Qmat, Qcopy=sw.coll.Qmat.copy(), call=symbolic(lambda: f(name, k=k)))
         return st
 
     def post(self, st, old, result, exc):
@@ -246,7 +259,7 @@ class UpdateVariableCoeffs(Contract):
         sw.QE = mk.matrix('QE_old', M + 1, M + 1, lambda i, j: i >= 1 and j < i)
         k = mk.int('k')
         st = State(L=L, sw=sw, M=M, inst=inst, log=log, k=k, QI_old=sw.QI, QE_old=sw.QE, gI=getattr(sw, 'genQI', None), gE=getattr(sw, 'genQE', None),
-                   call=lambda: sw.updateVariableCoeffs(k))
+                   call=symbolic(lambda: sw.updateVariableCoeffs(k)))
         return st
 
     def post(self, st, old, result, exc):
@@ -353,7 +366,7 @@ class SweeperMatrices(Contract):
             st.L = L
             return L.sweep
 
-        st.call = call
+        st.call = symbolic(call)
         return st
 
     def post(self, st, old, result, exc):
